@@ -58,6 +58,8 @@ fn adversarial_f32() -> BoxedStrategy<f32> {
             2.0,
             0.5,
             f32::from_bits(0x3f00_0001), // 0.5 + ulp
+            f32::EPSILON,
+            5.9604645e-8, // 2^-24
             1.0e-6,
             8.0e-6,
             1.0e-5,
@@ -309,8 +311,9 @@ pub fn wellformed(m: &MachineSpec, obs: &mut Obs) -> Result<(), String> {
                 }
                 sum += p.0 as f64;
             }
-            // slack: one f32 rounding per addend
-            if sum > 1.0 + l.len() as f64 * 2f64.powi(-24) {
+            // slack: the accepted f32 running sum is at most 1, and each of its k-1 additions
+            // rounds by at most 2^-24 (worst case: a partial sum landing on 1.0)
+            if sum > 1.0 + (l.len().saturating_sub(1)) as f64 * 2f64.powi(-24) {
                 return Err(format!("state {si} event {e}: probabilities sum to {sum} > 1"));
             }
         }
@@ -348,7 +351,25 @@ pub fn wellformed(m: &MachineSpec, obs: &mut Obs) -> Result<(), String> {
 impl Prop for C12 {
     type Case = C12Case;
     fn admissible(c: &C12Case) -> bool {
-        c.base.states.len() <= 16 && c.mutations.len() <= 16
+        // the spec must be in the form the generator and `mutate` produce: one entry per event,
+        // codes in range (a duplicated entry is silently overwritten when the machine is built,
+        // so the predicate and the built machine would not talk about the same lists)
+        let spec = mutate(&c.base, &c.mutations);
+        c.base.states.len() <= 16
+            && c.mutations.len() <= 16
+            && spec.states.iter().all(|s| {
+                let mut seen = [false; 13];
+                s.trans.iter().all(|(e, _)| {
+                    let ok = (*e as usize) < 13 && !seen[*e as usize % 13];
+                    seen[*e as usize % 13] = true;
+                    ok
+                }) && s.counter_a.map(|c| c.op <= 2).unwrap_or(true)
+                    && s.counter_b.map(|c| c.op <= 2).unwrap_or(true)
+                    && match s.action {
+                        Some(ActionSpec::Cancel { timer }) => timer <= 2,
+                        _ => true,
+                    }
+            })
     }
 
     const ID: &'static str = "C12";
@@ -548,7 +569,7 @@ impl Prop for C12 {
     fn assumptions() -> Vec<&'static str> {
         vec![
             "well-formedness of distribution parameters is the reading the statement gives: probability parameters real in [0,1], Uniform bounds finite and ordered with finite range, no NaN in scale-type parameters, and 16 samples under a fair stream neither panic nor exceed the word budget; NaN in location parameters (Normal mean etc.) is not judged",
-            "per-event probability sums are computed exactly in f64 with a slack of one f32 rounding (2^-24) per addend",
+            "per-event probability sums are computed exactly in f64 with a slack of one f32 rounding (2^-24) per addition (k-1 for k addends)",
             "only soundness (accepted => well-formed) and agreement of the acceptance paths are judged; well-formed-but-rejected machines are only counted",
         ]
     }
